@@ -40,7 +40,7 @@ REQUIRED = {
         "exodus_tri3": 5, "exodus_tri6": 5, "exodus_unnamed_sets": 3, "exodus_named_sets": 3, "exodus_no_elem_map": 3, "exodus_elem_map": 3,
         "exodus_multi_block": 5, "exodus_tri6_midside_checked": 100, "read_members_compared": 200, "json_files": 5,
         "structured_meshes": 10, "scale_tiny_meshes": 20, "scale_large_meshes": 20, "scale_mid_meshes": 20, "offset_meshes": 15,
-        "class:structured": 5, "merge_operand_checked_numpy_backed": 20, "exodus_files_with_10_or_more_nodesets": 4, "exodus_files_with_10_or_more_sidesets": 4, "edges_meshes_over_1365_triangles": 2, "merge_repeated_with_same_operands": 10, "class:elevate": 5, "class:edges": 5, "class:combine": 5, "class:exodus": 5, "class:json": 3,
+        "class:structured": 5, "merge_operand_checked_numpy_backed": 20, "exodus_files_with_10_or_more_nodesets": 4, "exodus_files_with_10_or_more_sidesets": 4, "edges_meshes_over_1365_triangles": 2, "edges_gapped_node_numbering": 10, "merge_repeated_with_same_operands": 10, "class:elevate": 5, "class:edges": 5, "class:combine": 5, "class:exodus": 5, "class:json": 3,
     },
 }
 WATCHDOG_S = {"quick": 1800, "thorough": 4 * 3600}
@@ -317,6 +317,20 @@ def run_edges(case, res, rng):
         tag = "delaunay %s nE=%d" % ({k: v for k, v in spec.items() if v}, len(tri))
         if spec["hole"]:
             res.count("edges_hole")
+    if i % 3 == 1:
+        # create_edges only sees a connectivity table: node numbers with gaps (a block of a larger mesh, a hole cut out while
+        # keeping the node array) are as admissible as 0..n-1
+        # an arbitrary injection of the node numbers into a larger range (no arithmetic pattern: deleted interior nodes,
+        # blocks of a larger mesh)
+        M = int(len(pts) * rng.uniform(1.2, 4.0)) + int(rng.integers(1, 30))
+        newid = rng.choice(M, size=len(pts), replace=False)
+        if i % 2:
+            newid = onp.sort(newid)
+        big = onp.full((M, 2), onp.nan)
+        big[newid] = pts
+        pts, tri = big, newid[tri]
+        tag += " gapped-numbering(%d ids in 0..%d)" % (len(newid), M - 1)
+        res.count("edges_gapped_node_numbering")
     conns = jnp.array(tri) if i % 2 == 0 else onp.array(tri)
     res.count("edges_input_jax" if i % 2 == 0 else "edges_input_numpy")
     ec_et = _call(res, "edges", Mesh.create_edges, conns)
